@@ -19,4 +19,7 @@ Extraction "model.ml"
   glide_new glide_set_time glide_process g_lpf d_c
   ribbon_new ribbon_new_ok ribbon_step ribbon_step_ok ribbon_value rb_pressing
   sample_rate_to_capacity sample_rate_to_capacity_ok
-  tanf.
+  tanf
+  linear_interp ilog_2 fabs is_almost sine_table attack_table decay_table
+  pa_new pa_tick pa_tick_ok pa_set_frequency pa_set_period pa_reset pa_set_phase pa_ramp pa_index pa_fraction
+  pa_take_rolled.
